@@ -16,6 +16,10 @@ CHECKS = {
    text="TLC explores the decoder step machine of spec/EslCodec.tla over every (stream, filler, cut) case of the near-miss space (field relations of ListSize/HeaderSize/SignatureSize, unsupported types, truncation points, trailing bytes, good neighbours), checks AcceptSound and NoSilentTruncation as invariants and emits the three-valued expectation of each case; every case is concretised and decoded by the real code, which must reject what the specification rejects and decode faithfully what it accepts. Byte-level mutations of real fixtures are projected back to abstract cases and judged by TLC.",
    note="Trusted: TLC, harness concretiser + independent reader (cross-checked against each other per case). MAY zone: hdrsize != 0, zero-count lists, externally-managed size != 17. Quick: boundary cut points (~117k cases); thorough: every cut point (~2.3M cases).",
    technique="TLA+ decoder spec model-checked with TLC; TLC-enumerated cases with expectations executed on the code; observations judged by TLC"),
+ "C10": dict(level="model_checking", ref="5/C10",
+   text="spec/AuthDescriptor.tla models the WIN_CERTIFICATE / EFI_VARIABLE_AUTHENTICATION_2 reader as a step machine over abstract inputs; TLC checks ConsumesDeclared, PayloadUntouched, FieldsExact, RoundTrip and AcceptsWellFormed for every well-formed input of the bounded space and emits consumed length and fields; the harness builds the bytes with its own writer, decodes with the real readers from an io.Reader and from a bytes.Buffer that is reused afterwards, and compares reader position, untouched payload, every field, Marshal output and decode(encode(v)). sbvarsign fixtures and library-produced descriptors are judged with the harness's independent field-by-field reader.",
+   note="Trusted: TLC, harness descriptor writer/reader. Certificate-data lengths are boundary samples in quick (0,1,7,8,1996,65536), every length 0..600 in thorough.",
+   technique="TLA+ reader step machine model-checked with TLC; TLC-enumerated cases with expected fields executed on the code"),
  "C11": dict(level="model_checking", ref="5/C11",
    text="spec/EfiVarFs.tla defines WriteCalls (the exact FS-grain refinement of an API write) and TLC checks OneWrite/NoTruncExcl on the bounded model; the real WriteVar/GetVar/GetVarWithAttributes and the legacy attributes.* twin are driven over a recording afero.Fs for every predefined definition and synthetic (name, GUID, mask) definitions, as long shuffled sequences on one wrapper object; the recorded API + FS events are validated by TLC against spec/EfiVarIoTrace.tla (exactly OpenFile(WRONLY|CREATE[,APPEND iff APPEND_WRITE], no TRUNC/EXCL); one Write of LE32(attrs)++value; Close; nothing else; reads: absent/short -> error, subset test before decoding, value and stored attributes returned).",
    note="Trusted: TLC, the recording Fs wrapper, the harness's own GUID text formatter and attribute decoding. Other open-flag bits and the read side's FS call sequence (beyond being read-only on that file) are not constrained. Quick: 43 synthetic masks; thorough: all 256.",
